@@ -189,7 +189,7 @@ def load_corpus(ctx):
     d = leanside.ROOT / 'corpus' / PID
     out = []
     if d.is_dir():
-        for f in sorted(d.glob('*.json')):
+        for f in sorted(x for x in d.glob('*.json') if not x.name.startswith(('seeded-', 'regress-'))):
             out.append(json.loads(f.read_text())['scenario'])
     return out
 
